@@ -93,6 +93,34 @@ pub fn cases(rng: &mut Rng, count: usize, tier: &str) -> Vec<Case> {
                 }
             }
         }
+        // a client that skips links to terms it does not have: add_parent calls naming an absent term fail,
+        // and the links that were accepted must still be the whole story (children = parents^-1)
+        if !very_deep_builder && rng.chance(1, 4) {
+            let inner = match &mut w {
+                World::Sub(b, _, _) => &mut **b,
+                other => other,
+            };
+            if let World::Builder(s) = inner {
+                if !f.terms.is_empty() {
+                    for _ in 0..rng.range(1, 3) {
+                        let absent = loop {
+                            let c = rng.range(2, 9_999_999) as u32;
+                            if !f.has(c) {
+                                break c;
+                            }
+                        };
+                        let present = rng.pick(&f.terms).id;
+                        let pc = match rng.below(3) {
+                            0 => (absent, present),
+                            _ => (present, absent),
+                        };
+                        let at = rng.below(s.parents.len() as u64 + 1) as usize;
+                        s.parents.insert(at, pc);
+                    }
+                    tags.push("refused_links");
+                }
+            }
+        }
         let b = w.build();
         let obs = world::on_onto(&b, obs_c01);
         tags.extend(tags_for(&f));
